@@ -207,6 +207,36 @@ struct LoopWorld
     }
 };
 
+// attempts of the PHS branch from the token stream: each attempt allocates one vector (D); a kept draw is
+// followed by its bounds test (T / F); "DC" is the state read-out of heuristicSolnCost
+struct Attempt
+{
+    bool kept;
+    bool inb;
+};
+static bool parseAttempts(const std::string &tk, std::vector<Attempt> &out)
+{
+    for (size_t i = 0; i < tk.size();)
+    {
+        if (tk[i] == 'D' && i + 1 < tk.size() && tk[i + 1] == 'C')
+        {
+            i += 2;
+            continue;
+        }
+        if (tk[i] != 'D')
+            return false;
+        ++i;
+        if (i < tk.size() && (tk[i] == 'T' || tk[i] == 'F'))
+        {
+            out.push_back({true, tk[i] == 'T'});
+            ++i;
+        }
+        else
+            out.push_back({false, false});
+    }
+    return true;
+}
+
 static int clsCode(const std::string &s)
 {
     return s == "below" ? 0 : s == "inside" ? 1 : 2;
@@ -381,7 +411,10 @@ static int modeReplay(const std::string &rowsPath, const std::string &tracePath,
             can.push_back(c.get<bool>() ? 1 : 0);
         size_t aliveN = row["alive"].size();
         bool phsBranch = kind == "direct" && finite && (!big || degen);
-        if (phsBranch && !(ov == "max" && aliveN == 1))
+        bool allInOne = true;
+        for (const json &o : row["script"])
+            allInOne = allInOne && o["k"].get<int>() == 1;
+        if (phsBranch && !(ov == "max" && aliveN == 1 && (degen || allInOne)))
         {
             ++skipped;   // answers come from the sampler's private random source: covered by recorded calls
             continue;
@@ -395,7 +428,8 @@ static int modeReplay(const std::string &rowsPath, const std::string &tracePath,
         {
             if (phsBranch)
             {
-                sp.boundsAns.push_back(o["inb"].get<bool>() ? 1 : 0);
+                if (o["keep"].get<bool>())
+                    sp.boundsAns.push_back(o["inb"].get<bool>() ? 1 : 0);
                 continue;
             }
             int k = o["k"], cls = clsCode(o["cls"]);
@@ -440,7 +474,8 @@ static int modeReplay(const std::string &rowsPath, const std::string &tracePath,
         long attempts = 0;
         if (phsBranch)
         {
-            attempts = (long)std::count(sp.tokens.begin(), sp.tokens.end(), 'T') + (long)std::count(sp.tokens.begin(), sp.tokens.end(), 'F');
+            std::vector<Attempt> at;
+            attempts = parseAttempts(sp.tokens, at) ? (long)at.size() : -1;
             for (size_t i = sp.asked.size(); i-- > 0;)
                 if (sp.asked[i] == out)
                 {
@@ -482,7 +517,7 @@ static int modeReplay(const std::string &rowsPath, const std::string &tracePath,
         {
             std::string s = a;
             if (s == "HInf" || s == "UErase" || s == "UDegenerate" || s == "OMinBelow" || s == "WDrawIn" || s == "WDrawOut" ||
-                s == "PDrawKept" || s == "PDrawOutOfBounds" || s == "RDrawAccept" || s == "RDrawReject")
+                s == "PDrawKept" || s == "PDrawOutOfBounds" || s == "PDrawInNoPhs" || s == "RDrawAccept" || s == "RDrawReject")
                 exits[s]++;
         }
         sp.freeState(st);
@@ -525,33 +560,22 @@ static int modeReplay(const std::string &rowsPath, const std::string &tracePath,
                         // parse the token stream into attempts
                         json att = json::array();
                         const std::string &tk = sp.tokens;
+                        std::vector<Attempt> at;
+                        bool parsed = parseAttempts(tk, at);
                         size_t ai = 0;
-                        bool parsed = true;
-                        for (size_t i = 0; i < tk.size();)
+                        for (const Attempt &x : at)
                         {
-                            if (tk[i] == 'D' && i + 1 < tk.size() && tk[i + 1] == 'C')
-                            {
-                                i += 2;   // getInformedSubstate of heuristicSolnCost
-                                continue;
-                            }
-                            if (tk[i] != 'D')
-                            {
-                                parsed = false;
-                                break;
-                            }
-                            ++i;
-                            if (i < tk.size() && (tk[i] == 'T' || tk[i] == 'F'))
+                            if (x.kept && ai < sp.asked.size())
                             {
                                 bool amb = false;
                                 int k = lw.inclusions(sp.asked[ai], 0, amb);
                                 LD c = lw.ownCost(sp.asked[ai]);
                                 int cls = c < (LD)lw.minC && ov == "minmax" ? 0 : c < (LD)lw.maxC ? 1 : 2;
-                                att.push_back(json::array({k, 1, tk[i] == 'T' ? 1 : 0, cls}));
+                                att.push_back(json::array({k, 1, x.inb ? 1 : 0, cls}));
                                 if (k > 1)
                                     ++multiIn;
                                 ++kept;
                                 ++ai;
-                                ++i;
                             }
                             else
                             {
